@@ -468,7 +468,13 @@ def rule_move_filters(ctx: Ctx) -> None:
             ctor = [n for n in ast.walk(fn) if isinstance(n, ast.Assign) and norm(n.targets[0]) == g and isinstance(n.value, ast.Call)
                     and call_attr(n.value) == "OneQubitGateWrapper"]
             rt = get_kw(ctor[0].value, "reg_type") if ctor else None
-            good = bool(ctor) and isinstance(rt, ast.Constant) and rt.value == kind[0].lower() and norm(get_kw(ctor[0].value, "register")) == "reg"
+            rg = get_kw(ctor[0].value, "register") if ctor else None
+            if isinstance(rg, ast.Name):
+                src = [n.value for n in ast.walk(fn) if isinstance(n, ast.Assign) and len(n.targets) == 1 and norm(n.targets[0]) == rg.id]
+                rg = src[-1] if src else rg
+            # the register of the operation being replaced: <old op>.register
+            same_reg = isinstance(rg, ast.Attribute) and rg.attr == "register"
+            good = bool(ctor) and isinstance(rt, ast.Constant) and rt.value == kind[0].lower() and same_reg
         if good:
             ctx.ok("move.filters", m, rep[0], what=f"{q}: wrapper -> wrapper on the same register")
         else:
@@ -483,7 +489,8 @@ def rule_move_filters(ctx: Ctx) -> None:
             raise AnalysisError(f"{q}: comprehension over edge_dict['p'] not found")
         for lc in comps:
             conds = " and ".join(norm(i) for i in lc.generators[0].ifs)
-            if "edge[0]" in conds and ("is ops.CNOT" in conds or "is not ops.Input" in conds):
+            ev = norm(lc.generators[0].target)
+            if f"{ev}[0]" in conds and ("is ops.CNOT" in conds or "is not ops.Input" in conds):
                 ctx.ok("move.filters", m, lc, what=f"{q}: photon edge filtered by its source operation")
             else:
                 ctx.fail("move.filters", m, lc,
@@ -500,7 +507,10 @@ def rule_move_filters(ctx: Ctx) -> None:
             ctx.fail("move.filters", m, fn, f"{q} draws insertion edges from a non-emitter wire", func=q, construct=f"{q}: edge source")
     # every move is followed by validate() before scoring (EvolutionarySolver.solve)
     fn = repo.anchor(EVO, "EvolutionarySolver.solve")
-    tr = [c for c in calls_in(fn) if isinstance(c.func, ast.Name) and c.func.id == "transformation"]
+    # the move is a callable drawn with np.random.choice / rng.choice and bound to a local name
+    drawn = {n.targets[0].id for n in ast.walk(fn) if isinstance(n, ast.Assign) and len(n.targets) == 1 and isinstance(n.targets[0], ast.Name)
+             and isinstance(n.value, ast.Call) and (call_attr(n.value) == "choice")}
+    tr = [c for c in calls_in(fn) if isinstance(c.func, ast.Name) and c.func.id in drawn and len(c.args) == 1]
     if len(tr) != 1:
         raise AnalysisError("EvolutionarySolver.solve: transformation(circuit) call not found")
     st = tr[0]
